@@ -59,6 +59,29 @@ def repo_subclass_pairs(ck) -> List[Tuple[str, str]]:
     return sorted(ps)
 
 
+_MUTATORS = ("append", "extend", "insert", "update", "add", "setdefault", "pop", "popitem", "remove", "discard", "clear", "sort", "reverse")
+
+
+def _filled_elsewhere(mod, name):
+    """Is the module-level container `name` also changed after its definition (a registry filled by a decorator, entries
+    added key by key)?  Then the expression it was created from does not say what it holds."""
+    memo = mod.__dict__.setdefault("_filled_elsewhere_memo", {})
+    if name not in memo:
+        hit = False
+        for n in ast.walk(mod.tree):
+            if isinstance(n, ast.Call) and isinstance(n.func, ast.Attribute) and n.func.attr in _MUTATORS \
+                    and isinstance(n.func.value, ast.Name) and n.func.value.id == name:
+                hit = True
+            elif isinstance(n, ast.Subscript) and isinstance(n.ctx, (ast.Store, ast.Del)) and isinstance(n.value, ast.Name) and n.value.id == name:
+                hit = True
+            elif isinstance(n, ast.AugAssign) and isinstance(n.target, ast.Name) and n.target.id == name:
+                hit = True
+            if hit:
+                break
+        memo[name] = hit
+    return memo[name]
+
+
 def _bound_value(fa, e, at):
     """The expression a name stands for, when that is evident: a local with one reaching plain assignment, a module-level
     name of this module or of the repository module it is imported from, a class-level constant read as `self.X` / `cls.X` /
@@ -71,13 +94,13 @@ def _bound_value(fa, e, at):
             return None
         mod = fa.fi.module
         if e.id in mod.assigns:
-            return mod.assigns[e.id]
+            return None if _filled_elsewhere(mod, e.id) else mod.assigns[e.id]
         origin = mod.imports.get(e.id)
         if origin and ":" in origin:
             m_, n_ = origin.split(":", 1)
             other = fa.ck.repo.modules.get(m_.lstrip(".").split(".")[-1])
             if other is not None and n_ in other.assigns:
-                return other.assigns[n_]
+                return None if _filled_elsewhere(other, n_) else other.assigns[n_]
         return None
     if isinstance(e, ast.Attribute) and isinstance(e.value, ast.Name):
         k = fa.fi.cls
@@ -165,15 +188,15 @@ def bind_target(target, elem):
     return None
 
 
-def static_truth(t):
+def static_truth(t, fa=None):
     """Truth of a test over constants and global dotted names (enum members, classes), when that is evident."""
     if isinstance(t, ast.Constant):
         return bool(t.value)
     if isinstance(t, ast.UnaryOp) and isinstance(t.op, ast.Not):
-        r = static_truth(t.operand)
+        r = static_truth(t.operand, fa)
         return None if r is None else (not r)
     if isinstance(t, ast.BoolOp):
-        rs = [static_truth(v) for v in t.values]
+        rs = [static_truth(v, fa) for v in t.values]
         if isinstance(t.op, ast.And):
             return False if any(r is False for r in rs) else (True if all(r is True for r in rs) else None)
         return True if any(r is True for r in rs) else (False if all(r is False for r in rs) else None)
@@ -182,7 +205,11 @@ def static_truth(t):
             if isinstance(e, ast.Constant):
                 return ("c", repr(e.value))
             d = A.dotted(e)
-            return ("d", d) if d is not None and "." in d else None
+            if d is None or "." not in d:
+                return None
+            if fa is None or fa.df.is_local(d.split(".")[0]):
+                return None   # rooted in a local / parameter: not a constant
+            return ("d", d)
         op, l, r = t.ops[0], atom(t.left), t.comparators[0]
         if l is None:
             return None
@@ -252,9 +279,10 @@ def fold_lookups(fa, expr, at):
     return T().visit(copy.deepcopy(expr))
 
 
-def comprehension_elements(fa, gens, at):
+def comprehension_elements(fa, gens, at, possible=False):
     """[{name: expression}] -- one binding per element that a single `for <target> in <literal sequence> [if ...]` clause
-    lets through, in order; None when the clause is not understood."""
+    lets through, in order; None when the clause is not understood.  possible=True: an element whose filter cannot be
+    decided is kept (what the comprehension may yield)."""
     if len(gens) != 1 or gens[0].is_async:
         return None
     g = gens[0]
@@ -268,8 +296,10 @@ def comprehension_elements(fa, gens, at):
             return None
         keep = True
         for c in g.ifs:
-            tv = static_truth(fold_lookups(fa, subst(c, b), at))
+            tv = static_truth(fold_lookups(fa, subst(c, b), at), fa)
             if tv is None:
+                if possible:
+                    continue
                 return None
             keep = keep and tv
         if keep:
